@@ -726,3 +726,86 @@ func (m *Model) newTokenCases(s *Sink, rule string, fn *ssa.Function) bool {
 	}
 	return true
 }
+
+// RunNoReadPastEnd — R-TOKPOS (g): a scanner that reports "not terminated" has not read past the end of the input. In a
+// lexer function with a bool verdict, a readChar made after the verdict was computed from the current character
+// (`closed := l.char == quote`) is made only when the verdict is true: read at the end of the input, readChar still
+// advances the column (and the line), so the ILLEGAL token of an unterminated string ends one position — or one line —
+// past the last byte, and so does everything positioned after it (the end-of-input token).
+func (m *Model) RunNoReadPastEnd(s *Sink, rule string) {
+	rc := m.Method("lexer", "Lexer", "readChar")
+	if rc == nil {
+		s.Undecided(rule, "lexer.readChar", "-", "readChar not found")
+		return
+	}
+	n := 0
+	for _, fn := range m.ModFns {
+		if fn.Blocks == nil || shortPkg(fnPkgPath(fn)) != "lexer" || verdictIndexAny(fn) < 0 {
+			continue
+		}
+		vi := verdictIndexAny(fn)
+		ctx := m.Ctx(fn)
+		// verdicts computed from the current character
+		var verdicts []ssa.Instruction
+		for _, b := range fn.Blocks {
+			ret, ok := b.Instrs[len(b.Instrs)-1].(*ssa.Return)
+			if !ok || vi >= len(ret.Results) {
+				continue
+			}
+			bo, isBo := ret.Results[vi].(*ssa.BinOp)
+			if !isBo || (bo.Op != token.EQL && bo.Op != token.NEQ) {
+				continue
+			}
+			readsChar := false
+			for _, side := range []ssa.Value{bo.X, bo.Y} {
+				if _, p, ok := pathOf(side); ok && p == ".char" {
+					readsChar = true
+				}
+			}
+			if readsChar {
+				verdicts = append(verdicts, bo)
+			}
+		}
+		for _, v := range verdicts {
+			n++
+			bad := ""
+			for _, b := range fn.Blocks {
+				for _, in := range b.Instrs {
+					c, ok := in.(*ssa.Call)
+					if !ok || c.Call.StaticCallee() != rc || !ctx.instrDominates(v, c) {
+						continue
+					}
+					guarded := false
+					for _, f := range expandFacts(factsAt(b)) {
+						if f.Cond == v.(ssa.Value) && f.Holds == (v.(*ssa.BinOp).Op == token.EQL) {
+							guarded = true
+						}
+					}
+					if !guarded && bad == "" {
+						bad = m.InstrPos(c)
+					}
+				}
+			}
+			key := fmt.Sprintf("%s|nothing is read after the scanner found its input unterminated", fnKey(fn))
+			if bad != "" {
+				s.Violation(rule, key, bad, "%s computes its verdict from the current character and then calls readChar at %s whether or not the verdict holds: when the input ended (the verdict is false) this read moves the column — and, after a line feed, the line — past the last byte, so the ILLEGAL token reported for the unterminated construct, and the end-of-input token after it, are positioned beyond the input", fnKey(fn), bad)
+			} else {
+				s.OK(rule, key, m.Pos(fn.Pos()), "every readChar after the verdict lies under the verdict being true")
+			}
+		}
+	}
+	if n == 0 {
+		s.OK(rule, "lexer|no scanner computes a verdict from the current character and reads on", "-", "no lexer function with a bool result compared from l.char followed by a read")
+	}
+}
+
+// verdictIndexAny: the index of the last bool result (also of a function with a single result).
+func verdictIndexAny(fn *ssa.Function) int {
+	rs := fn.Signature.Results()
+	for i := rs.Len() - 1; i >= 0; i-- {
+		if isBoolT(rs.At(i).Type()) {
+			return i
+		}
+	}
+	return -1
+}
